@@ -585,12 +585,15 @@ class CallMixin:
         # 4. result
         if ret == NONE or ret.head == "none":
             res = SV(VNone, NONE)
+        elif con.get("fresh_result"):
+            # the result is a container allocated by the callee: a new reference (contents given by `ensures`)
+            t = VRef(ops.alloc_ref(st))
+            assume_typed(st, t, ret)
+            res = SV(t, ret)
         else:
             t = fresh("res_" + key.replace(".", "_"), V)
             assume_typed(st, t, ret)
             res = SV(t, ret)
-        if con.get("fresh_result"):
-            st.assume(ref(res.t) >= entry_alloc)
         pcx = Ctx(spec=True, pre=pre_state, pre_env=env, result=res, entry_alloc=entry_alloc)
         for e in con.get("ensures", []):
             name, src = e if isinstance(e, tuple) else (None, e)
